@@ -304,6 +304,16 @@ Definition check_crash_list (acked started loaded missing : Z) : Z :=
 Definition check_list_race (lists missing : Z) : Z :=
   code (missing =? 0) ((missing =? 0) && (0 <=? lists)).
 
+(** ** kind 6: Store with a context that ends during the Store.  Store is all or nothing (the
+    LTS: it either renames the complete value - C10_sealed_invariant, C10_load_after_stores - or
+    fails without effect - C10_failed_store_no_effect): per trial (result class of Store, Load
+    afterwards: 1 the complete new value, 0 the old value / not-exist, -1 anything else), nil goes
+    with the new value and an error with the old one.  Whether a Store notices the end of its
+    context at all is left open (the model admits both). *)
+Definition ctx_trial_ok (t : Z * Z) : bool :=
+  let '(r, l) := t in ((r =? 0) && (l =? 1)) || (negb (r =? 0) && (l =? 0)).
+Definition check_ctx_store (ts : list (Z * Z)) : Z := code (forallb ctx_trial_ok ts) (forallb ctx_trial_ok ts).
+
 (** ** dispatch *)
 Definition check_line (l : list Z) : Z :=
   match l with
@@ -325,6 +335,11 @@ Definition check_line (l : list Z) : Z :=
   | 3 :: r =>
       match decode (a <- get_z ;; s <- get_z ;; x <- get_z ;; m <- get_z ;; ret (a, s, x, m)) r with
       | Some (a, s, x, m) => check_crash_list a s x m
+      | None => code_decode_error
+      end
+  | 6 :: r =>
+      match decode (get_list (a <- get_z ;; b <- get_z ;; ret (a, b))) r with
+      | Some ts => check_ctx_store ts
       | None => code_decode_error
       end
   | 5 :: r =>
